@@ -35,9 +35,9 @@ def corner_scenarios(chk: Check) -> list[dict]:
     out = []
     src = "x = set([1, 2])\nassert (1, 'm')\n"
 
-    def add(sid, files, argv, resfiles=None, what=""):
-        out.append({"id": sid, "files": files, "resfiles": resfiles or {}, "steps": [{"argv": ["{dir}", "--output", "{out}"] + argv}],
-                    "_v": None, "_what": what})
+    def add(sid, files, argv, resfiles=None, what="", inject=None, only_if_completed=False):
+        out.append({"id": sid, "files": files, "resfiles": resfiles or {}, "steps": [{"argv": ["{dir}", "--output", "{out}"] + argv, "inject": inject or {}}],
+                    "_v": None, "_what": what, "_only_if_completed": only_if_completed})
 
     add("C15-zero-codemods", {"a.py": src}, ["--codemod-include", "pixee:python/no-such-codemod"], what="unknown id only")
     add("C15-empty-dir", {}, ["--codemod-include", "pixee:python/use-set-literal,pixee:python/fix-assert-tuple"], what="empty directory")
@@ -46,6 +46,10 @@ def corner_scenarios(chk: Check) -> list[dict]:
     add("C15-fail-and-change", {"a.py": "def broken(:\n", "b.py": src, "c.py": src}, ["--codemod-include", "pixee:python/use-set-literal,pixee:python/fix-assert-tuple"], what="failures and changes")
     add("C15-nonascii", {"pkg/módulo_日本.py": "# коммент\nname = 'héllo ✓'\n" + src, "b.py": src},
         ["--codemod-include", "pixee:python/use-set-literal,pixee:python/fix-assert-tuple"], what="non-ASCII path and content")
+    # a rewritten source that cannot be written back (disk full): what the run does then is not prescribed, but IF it
+    # completes with status 0 its report must still be consistent
+    add("C15-write-error", {"a.py": src, "b.py": src, "c.py": src}, ["--codemod-include", "pixee:python/use-set-literal,pixee:python/fix-assert-tuple"],
+        what="write error on one rewritten file", inject={"raise_in_write": {"f": "b.py"}}, only_if_completed=True)
     add("C15-dry", {"a.py": src}, ["--codemod-include", "pixee:python/use-set-literal", "--dry-run"], what="dry run")
     add("C15-default-exclude-mode", {"a.py": src}, ["--codemod-exclude", "pixee:python/*"], what="everything excluded")
     # SAST runs with the repository's own seed findings, one per tool (more in thorough)
@@ -69,6 +73,9 @@ def run(chk: Check) -> None:
     for scn, res, verdicts in runspace.run_and_validate(chk, scenarios):
         st = res["steps"][0]
         chk.count()
+        if scn.get("_only_if_completed") and (st["exit"] != 0 or st["exc"]):
+            chk.coverage["runs_not_completed_not_judged"] = chk.coverage.get("runs_not_completed_not_judged", 0) + 1
+            continue
         label = runspace.vkey(scn["_v"]) if scn.get("_v") else scn["_what"]
         chk.nontrivial(label)
         bad = sorted({c for c in verdicts[st["trace"]["id"]] if c.startswith(CLAUSES)})
